@@ -115,9 +115,10 @@ func cloneInstr(in ssa.Instruction) ssa.Instruction {
 // rule is stated over the caller with the helper's body in place), so that neither moving code
 // into such a helper nor folding the helper back into its caller changes what the rule sees.
 var forceTransparent = map[string]string{
-	"(*am/config.Coordinator).loadFromFile": "C17.7 reads Reload as: LoadFile, store, notify",
-	"(*am/silence.Silences).Maintenance$2":  "C11.3 reads Maintenance with the run wrapper in place: the maintenance function is called on every tick and at shutdown",
-	"(*am/nflog.Log).Maintenance$2":         "C11.3, as for silences",
+	"(*am/config.Coordinator).loadFromFile":      "C17.7 reads Reload as: LoadFile, store, notify",
+	"(*am/config.Coordinator).notifySubscribers": "C17.7 reads Reload as: LoadFile, store, call every subscriber",
+	"(*am/silence.Silences).Maintenance$2":       "C11.3 reads Maintenance with the run wrapper in place: the maintenance function is called on every tick and at shutdown",
+	"(*am/nflog.Log).Maintenance$2":              "C11.3, as for silences",
 }
 
 // isNewFunc: the function (or, for a literal, the literal itself) is not part of the reference tree
